@@ -90,8 +90,8 @@ impl G {
         self.edges.values().any(|e| e.0 == node || e.1 == node)
     }
     fn brief(&self) -> String {
-        let ns: Vec<String> = self.nodes.iter().map(|(id, (l, p))| format!("({id}:{}{})", l.iter().map(|x| if x.is_empty() { "\"\"".to_string() } else { x.clone() }).collect::<Vec<_>>().join(":"), fmt_props(p))).collect();
-        let es: Vec<String> = self.edges.iter().map(|(id, (s, t, ty, p))| format!("[{id}:{s}-{ty}->{t}{}]", fmt_props(p))).collect();
+        let ns: Vec<String> = self.nodes.iter().map(|(id, (l, p))| format!("({id}:{}{})", l.iter().map(|x| show_name(x)).collect::<Vec<_>>().join(":"), fmt_props(p))).collect();
+        let es: Vec<String> = self.edges.iter().map(|(id, (s, t, ty, p))| format!("[{id}:{s}-{}->{t}{}]", show_name(ty), fmt_props(p))).collect();
         format!("nodes {{{}}} rels {{{}}}", ns.join(" "), es.join(" "))
     }
 }
@@ -99,7 +99,7 @@ fn fmt_props(p: &CProps) -> String {
     if p.is_empty() {
         String::new()
     } else {
-        format!(" {{{}}}", p.iter().map(|(k, v)| format!("{k}={v}")).collect::<Vec<_>>().join(","))
+        format!(" {{{}}}", p.iter().map(|(k, v)| format!("{}={v}", show_name(k))).collect::<Vec<_>>().join(","))
     }
 }
 
@@ -226,9 +226,57 @@ const KEYS: [&str; 3] = ["p", "q", "k"];
 const LABELS: [&str; 3] = ["A", "B", "C"];
 const TYPES: [&str; 3] = ["R", "S", "T"];
 
-/// generated property map: 0–2 entries over keys {p,q,k}, boundary values (depth ≤ 1)
+/// Boundary names for labels, relationship types and property keys: everything a
+/// `Request` / `Node` / `Edge` can carry (any `String`) and bincode storage round-trips.
+/// The empty string, white space only, separators of other layers (':' '|' NUL), quotes and
+/// backslashes, non-ASCII (composed / decomposed / astral), names that differ from the plain
+/// pool only by case or padding, reserved-looking words, and long names (300 bytes; 66 000
+/// bytes, past a 16-bit length).
+fn name_pool() -> &'static [String] {
+    static POOL: std::sync::OnceLock<Vec<String>> = std::sync::OnceLock::new();
+    POOL.get_or_init(|| {
+        let mut v: Vec<String> = [
+            "", " ", "  ", "\t", "\n", "\r\n", "a:b", ":", "A:B", "A|B", "|", "\0", "nul\0mid", "'", "\"", "it's", "say \"hi\"", "\\", "back\\slash", "`tick`",
+            "é", "e\u{301}", "日本語", "😀", "\u{10FFFF}", "a", " A", "A ", "null", "__type", "{\"t\":\"n\"}", "\u{1}", "\u{7f}", "\u{fffd}",
+        ]
+        .iter()
+        .map(|s| s.to_string())
+        .collect();
+        v.push("L".repeat(300));
+        v.push("é".repeat(33_000));
+        v
+    })
+}
+/// a name longer than this is kept out of evidence samples and shortened in messages
+const LONG_NAME: usize = 200;
+
+fn show_name(s: &str) -> String {
+    if !s.is_empty() && s.len() <= 24 && s.chars().all(|c| c.is_ascii_alphanumeric() || c == '_') {
+        s.to_string()
+    } else if s.len() > 48 {
+        let head: String = s.chars().take(12).collect();
+        format!("{:?}…[{} bytes]", head, s.len())
+    } else {
+        format!("{s:?}")
+    }
+}
+
+/// key selector: 0..3 = the plain keys, 3.. = the boundary pool
+fn key_name(k: u8) -> String {
+    let k = k as usize;
+    if k < 3 {
+        KEYS[k].to_string()
+    } else {
+        let pool = name_pool();
+        pool[(k - 3) % pool.len()].clone()
+    }
+}
+
+/// generated property map: 0–2 entries, keys {p,q,k} (three in four) or boundary names,
+/// boundary values (depth ≤ 1)
 fn props_strategy() -> impl Strategy<Value = Vec<(u8, PropertyValue)>> {
-    proptest::collection::vec((0u8..3, value_strategy(1)), 0..3)
+    let key = prop_oneof![3 => 0u8..3, 1 => 3u8..(3 + name_pool().len() as u8)];
+    proptest::collection::vec((key, value_strategy(1)), 0..3)
 }
 fn build_props(raw: &[(u8, PropertyValue)], for_update: bool) -> JProps {
     let mut out = JProps::new();
@@ -236,12 +284,102 @@ fn build_props(raw: &[(u8, PropertyValue)], for_update: bool) -> JProps {
         // a top-level Null in an update could mean "remove" under a merge reading: keep the
         // update domain to values whose effect is the same under every reading of the key
         let v = if for_update && matches!(v, PropertyValue::Null) { PropertyValue::Integer(0) } else { v.clone() };
-        out.insert(KEYS[*k as usize % 3].to_string(), to_json(&v));
+        out.insert(key_name(*k), to_json(&v));
     }
     out
 }
 fn label_set(mask: u8) -> Vec<String> {
     (0..3).filter(|i| mask & (1 << i) != 0).map(|i| LABELS[i].to_string()).collect()
+}
+/// The label list of a creation. `nm % 10`: 0..=5 the plain subsets of {A,B,C}; 6 = one to
+/// three boundary names; 7 = the empty string alone; 8 = the empty string among plain
+/// labels; 9 = a list that repeats a label (plain or boundary).
+fn gen_labels(mask: u8, nm: u16) -> Vec<String> {
+    let pool = name_pool();
+    let x = (nm / 10) as usize;
+    match nm % 10 {
+        6 => (0..1 + x % 3).map(|i| pool[(x / 3 + i * 7) % pool.len()].clone()).collect(),
+        7 => vec![String::new()],
+        8 => {
+            let mut l = label_set(mask);
+            l.insert(x % (l.len() + 1), String::new());
+            l
+        }
+        9 => {
+            let mut l = if x % 2 == 0 { label_set(mask | 1) } else { vec![pool[(x / 2) % pool.len()].clone(), LABELS[x % 3].to_string()] };
+            let again = l[0].clone();
+            l.push(again.clone());
+            if x % 3 == 0 {
+                l.insert(0, again);
+            }
+            l
+        }
+        _ => label_set(mask),
+    }
+}
+/// The type of a relationship creation: `nm % 10` 0..=6 plain {R,S,T}, 7..=9 a boundary name.
+fn gen_type(mask: u8, nm: u16) -> String {
+    if nm % 10 >= 7 {
+        let pool = name_pool();
+        pool[(nm / 10) as usize % pool.len()].clone()
+    } else {
+        TYPES[mask as usize % 3].to_string()
+    }
+}
+
+/// generator-health classes over the names a history carries (suffixes; the caller adds
+/// "request_with_" / "op_with_") and whether some name is too long for an evidence sample
+fn name_classes<'a>(muts: impl Iterator<Item = Mut<'a>>) -> (BTreeSet<&'static str>, bool) {
+    let mut out = BTreeSet::new();
+    let mut long = false;
+    let keys = |props: &JProps, out: &mut BTreeSet<&'static str>, long: &mut bool| {
+        for k in props.keys() {
+            if !KEYS.contains(&k.as_str()) {
+                out.insert("boundary_key");
+                if k.is_empty() {
+                    out.insert("empty_string_key");
+                }
+            }
+            *long |= k.len() > LONG_NAME;
+        }
+    };
+    for m in muts {
+        match m {
+            Mut::CreateNode { labels, props, .. } => {
+                if labels.iter().any(|l| !LABELS.contains(&l.as_str())) {
+                    out.insert("boundary_label");
+                }
+                if labels.iter().any(|l| l.is_empty()) {
+                    out.insert("empty_string_label");
+                    if labels.iter().any(|l| !l.is_empty()) {
+                        out.insert("empty_string_label_among_others");
+                    }
+                }
+                let set: BTreeSet<&String> = labels.iter().collect();
+                if set.len() < labels.len() {
+                    out.insert("duplicate_labels");
+                }
+                long |= labels.iter().any(|l| l.len() > LONG_NAME);
+                keys(props, &mut out, &mut long);
+            }
+            Mut::CreateEdge { ty, props, .. } => {
+                if !TYPES.contains(&ty) {
+                    out.insert("boundary_type");
+                    if ty.is_empty() {
+                        out.insert("empty_string_type");
+                    }
+                }
+                long |= ty.len() > LONG_NAME;
+                keys(props, &mut out, &mut long);
+            }
+            Mut::UpdateNode { props, .. } | Mut::UpdateEdge { props, .. } => keys(props, &mut out, &mut long),
+            _ => {}
+        }
+    }
+    if long {
+        out.insert("very_long_name");
+    }
+    (out, long)
 }
 
 // ---------------------------------------------------------------------------------------
@@ -912,14 +1050,14 @@ fn c16_run(case: &C16Case, kf_updates: bool) -> C16Verdict {
     ))
 }
 
-/// raw generated step: (kind, three selectors, label mask, properties)
-type RawOp = (u8, u16, u16, u16, u8, Vec<(u8, PropertyValue)>);
+/// raw generated step: (kind, three selectors, label mask, properties, name selector)
+type RawOp = (u8, u16, u16, u16, u8, Vec<(u8, PropertyValue)>, u16);
 
 fn raw_op_strategy() -> impl Strategy<Value = RawOp> {
     // kinds by weight: 0 create_node ×4, 1 create_edge ×3, 2 delete_node, 3 delete_edge,
     // 4 update_node ×3, 5 update_edge ×2, 6 flush, 7 checkpoint
     let kind = prop_oneof![4 => Just(0u8), 3 => Just(1u8), 1 => Just(2u8), 1 => Just(3u8), 3 => Just(4u8), 2 => Just(5u8), 1 => Just(6u8), 1 => Just(7u8)];
-    (kind, any::<u16>(), any::<u16>(), any::<u16>(), 0u8..8, props_strategy())
+    (kind, any::<u16>(), any::<u16>(), any::<u16>(), 0u8..8, props_strategy(), any::<u16>())
 }
 
 /// Construct a valid history from selectors (construction, not rejection): ids 1..=6, reuse
@@ -930,7 +1068,7 @@ fn c16_build(raw: &[RawOp]) -> Vec<POp> {
     let cfg = ModelCfg { upd: UpdMode::Replace, empty_labels_as_empty_string: false };
     let mut g = G::default();
     let mut ops = Vec::new();
-    for (kind, a, b, c, mask, props) in raw {
+    for (kind, a, b, c, mask, props, nm) in raw {
         let live_nodes: Vec<u64> = g.nodes.keys().cloned().collect();
         let live_edges: Vec<u64> = g.edges.keys().cloned().collect();
         let free_nodes: Vec<u64> = (1..=IDS).filter(|i| !g.nodes.contains_key(i)).collect();
@@ -941,7 +1079,7 @@ fn c16_build(raw: &[RawOp]) -> Vec<POp> {
             0 if !live_nodes.is_empty() && *b < 13000 => {
                 let id = live_nodes[pick_idx(*a, live_nodes.len())];
                 let props = build_props(props, false);
-                POp::CreateNode { id, labels: different_labels(&g.nodes[&id], label_set(*mask), &props), props }
+                POp::CreateNode { id, labels: different_labels(&g.nodes[&id], gen_labels(*mask, *nm), &props), props }
             }
             // 25 % (mask 6, 7): relationship over an id that is still stored, new endpoints/type/properties
             1 if !live_nodes.is_empty() && !live_edges.is_empty() && *mask >= 6 => {
@@ -949,18 +1087,21 @@ fn c16_build(raw: &[RawOp]) -> Vec<POp> {
                 let (src, dst) = (live_nodes[pick_idx(*b, live_nodes.len())], live_nodes[pick_idx(*c, live_nodes.len())]);
                 let props = build_props(props, false);
                 let cur = &g.edges[&id];
-                let mut ty = TYPES[*mask as usize % 3].to_string();
+                let mut ty = gen_type(*mask, *nm);
                 if (src, dst, &ty, &jprops_canon(&props)) == (cur.0, cur.1, &cur.2, &cur.3) {
                     ty = TYPES[(*mask as usize + 1) % 3].to_string();
+                    if ty == cur.2 {
+                        ty = TYPES[(*mask as usize + 2) % 3].to_string();
+                    }
                 }
                 POp::CreateEdge { id, src, dst, ty, props }
             }
-            0 if !free_nodes.is_empty() => POp::CreateNode { id: free_nodes[pick_idx(*a, free_nodes.len())], labels: label_set(*mask), props: build_props(props, false) },
+            0 if !free_nodes.is_empty() => POp::CreateNode { id: free_nodes[pick_idx(*a, free_nodes.len())], labels: gen_labels(*mask, *nm), props: build_props(props, false) },
             1 if !live_nodes.is_empty() && !free_edges.is_empty() => POp::CreateEdge {
                 id: free_edges[pick_idx(*a, free_edges.len())],
                 src: live_nodes[pick_idx(*b, live_nodes.len())],
                 dst: live_nodes[pick_idx(*c, live_nodes.len())],
-                ty: TYPES[*mask as usize % 3].to_string(),
+                ty: gen_type(*mask, *nm),
                 props: build_props(props, false),
             },
             2 => {
@@ -1103,7 +1244,7 @@ fn c16(args: &Args) {
     let mut ev = Evidence::new(
         args,
         "fault_enumeration",
-        "histories (<= 25 ops: persist_create_node/edge — about one in five over an id that is still stored, with different content —, persist_delete_*, persist_update_node_properties, persist_update_edge_properties, flush, checkpoint; ids 1..=6 with reuse, boundary property values) run in a fork()ed child that _exit()s at a chosen hook hit inside an operation (after quota check / WAL append / storage write / usage update) or right after an acknowledgement, or shuts down cleanly; a separate recovery process reopens the directory and calls recover(tenant); oracle = recovered graph (ids, labels, endpoints, types, typed properties) equals the reference model over the acknowledged ops, optionally plus the op in flight applied whole. Part A enumerates EVERY crash point of a fixed all-kinds history and of generated short histories; part B draws (history, crash point) pairs, one in six from a counter-drain class (k creations, at least k deletes of ids that do not exist, then deletes of ids that do). Non-trivial = the crash fell strictly inside an operation, or the history contains a property update; distinct = distinct (history, crash point).",
+        "histories (<= 25 ops: persist_create_node/edge — about one in five over an id that is still stored, with different content —, persist_delete_*, persist_update_node_properties, persist_update_edge_properties, flush, checkpoint; ids 1..=6 with reuse, boundary property values, labels / relationship types / property keys from plain pools or a boundary pool of names: empty string, white space, ':' '|' NUL, quotes, backslashes, non-ASCII, 300-byte and 66 000-byte names, repeated labels) run in a fork()ed child that _exit()s at a chosen hook hit inside an operation (after quota check / WAL append / storage write / usage update) or right after an acknowledgement, or shuts down cleanly; a separate recovery process reopens the directory and calls recover(tenant); oracle = recovered graph (ids, labels, endpoints, types, typed properties) equals the reference model over the acknowledged ops, optionally plus the op in flight applied whole. Part A enumerates EVERY crash point of a fixed all-kinds history and of generated short histories; part B draws (history, crash point) pairs, one in six from a counter-drain class (k creations, at least k deletes of ids that do not exist, then deletes of ids that do). Non-trivial = the crash fell strictly inside an operation, or the history contains a property update; distinct = distinct (history, crash point).",
     );
     ev.assume("a process crash is modelled by _exit(2) semantics: everything write(2)n survives, user-space buffers are lost; power loss is not modelled");
     ev.assume("a property update may be read as replacing the property map or as merging into it; either reading, applied consistently, satisfies the oracle; updates carry no top-level null");
@@ -1151,6 +1292,10 @@ fn c16(args: &Args) {
         if over > 0 {
             ev.class("create_over_existing_id");
         }
+        let (names, long_name) = name_classes(case.ops.iter().take(executed).map(|o| o.as_mut()));
+        for c in &names {
+            ev.class(&format!("op_with_{c}"));
+        }
         match c16_run(case, kf_updates) {
             C16Verdict::Held { inside, site, refusals } => {
                 ev.class(&site.split('(').next().unwrap().to_string());
@@ -1162,7 +1307,7 @@ fn c16(args: &Args) {
                 }
                 if inside || has_update {
                     ev.nontrivial(&serde_json::to_string(case).unwrap());
-                    if inside && ev.want_sample() && (ev.samples.len() < 3 || has_update) {
+                    if inside && ev.want_sample() && (ev.samples.len() < 3 || has_update) && !long_name {
                         ev.sample(json!(case));
                     }
                 }
@@ -1276,8 +1421,9 @@ fn c16(args: &Args) {
 struct C18Case {
     /// one string per writer thread: its creations in order, 'n' = node, 'e' = relationship
     threads: Vec<String>,
-    max_nodes: usize,
-    max_edges: usize,
+    /// quotas the tenant is created with; null = no limit for that resource
+    max_nodes: Option<usize>,
+    max_edges: Option<usize>,
     /// thread index to release at each step (until its next hook point or completion);
     /// entries naming a finished thread are skipped; threads still unfinished afterwards
     /// run to completion in index order
@@ -1287,6 +1433,67 @@ struct C18Case {
     /// close the manager and open a fresh one on the same directory before recovering
     #[serde(default)]
     reopen: bool,
+    /// the history goes on: each phase changes the quotas while no writer runs
+    /// (`TenantManager::update_quotas`) and then runs more writers
+    #[serde(default, skip_serializing_if = "Vec::is_empty")]
+    phases: Vec<C18Phase>,
+}
+
+#[derive(Clone, Debug, Serialize, Deserialize, PartialEq, Eq, Hash)]
+struct C18Phase {
+    /// quotas put in force before this phase's writers start; null = no limit
+    max_nodes: Option<usize>,
+    max_edges: Option<usize>,
+    threads: Vec<String>,
+    #[serde(default)]
+    schedule: Vec<u8>,
+    /// before the quota change: recover(tenant) on the same manager
+    #[serde(default)]
+    recover_before: bool,
+    /// before the quota change: close the manager, open a fresh one on the same directory,
+    /// register the tenant with the quotas that were in force, recover(tenant)
+    #[serde(default)]
+    reopen_before: bool,
+}
+
+/// the top-level fields of a case are its first phase
+struct PhaseView<'a> {
+    max_nodes: Option<usize>,
+    max_edges: Option<usize>,
+    threads: &'a [String],
+    schedule: &'a [u8],
+    recover_before: bool,
+    reopen_before: bool,
+}
+
+impl C18Case {
+    fn single(threads: Vec<String>, max_nodes: Option<usize>, max_edges: Option<usize>, schedule: Vec<u8>, recovers: u8, reopen: bool) -> C18Case {
+        C18Case { threads, max_nodes, max_edges, schedule, recovers, reopen, phases: Vec::new() }
+    }
+    fn views(&self) -> Vec<PhaseView<'_>> {
+        let mut v = vec![PhaseView { max_nodes: self.max_nodes, max_edges: self.max_edges, threads: &self.threads, schedule: &self.schedule, recover_before: false, reopen_before: false }];
+        for p in &self.phases {
+            v.push(PhaseView { max_nodes: p.max_nodes, max_edges: p.max_edges, threads: &p.threads, schedule: &p.schedule, recover_before: p.recover_before, reopen_before: p.reopen_before });
+        }
+        v
+    }
+    /// the manager is closed and reopened somewhere in the history
+    fn reopens(&self) -> bool {
+        self.reopen || self.phases.iter().any(|p| p.reopen_before)
+    }
+    /// same configuration, schedules dropped (key of the distinct-case count)
+    fn without_schedules(&self) -> C18Case {
+        let mut c = self.clone();
+        c.schedule.clear();
+        for p in &mut c.phases {
+            p.schedule.clear();
+        }
+        c
+    }
+}
+
+fn quota_text(q: Option<usize>) -> String {
+    q.map(|n| n.to_string()).unwrap_or_else(|| "unlimited".to_string())
 }
 
 #[derive(Clone, Copy, PartialEq, Eq, Debug)]
@@ -1417,8 +1624,14 @@ thread_local! {
     static STRESS_POOL: Pool = Pool::new(8);
 }
 
-fn c18_quotas(mn: usize, me: usize) -> ResourceQuotas {
-    ResourceQuotas { max_nodes: Some(mn), max_edges: Some(me), ..ResourceQuotas::default() }
+/// None = no limit for that resource. The quota structs are built the way the tree's own
+/// callers build them: `ResourceQuotas::unlimited()`, or a literal over the defaults.
+fn c18_quotas(mn: Option<usize>, me: Option<usize>) -> ResourceQuotas {
+    if mn.is_none() && me.is_none() {
+        ResourceQuotas::unlimited()
+    } else {
+        ResourceQuotas { max_nodes: mn, max_edges: me, ..ResourceQuotas::default() }
+    }
 }
 
 /// One RocksDB directory serving many schedules: every schedule gets a fresh tenant whose
@@ -1439,7 +1652,7 @@ impl Arena {
     fn pm(&self) -> Arc<PersistenceManager> {
         Arc::clone(self.pm.as_ref().unwrap())
     }
-    fn new_tenant(&mut self, mn: usize, me: usize) -> Result<String, String> {
+    fn new_tenant(&mut self, mn: Option<usize>, me: Option<usize>) -> Result<String, String> {
         self.next += 1;
         let name = format!("t{:09}", self.next);
         self.pm().tenants().create_tenant(name.clone(), name.clone(), Some(c18_quotas(mn, me))).map_err(|e| format!("create_tenant refused: {e}"))?;
@@ -1457,28 +1670,63 @@ impl Arena {
     }
 }
 
-#[derive(Debug, Default)]
-struct C18Obs {
-    trace: Vec<(u8, String)>,
+/// what was read at a quiescent point (no writer running)
+#[derive(Debug, Default, Clone)]
+struct PhaseObs {
     /// per thread, per op
     results: Vec<Vec<Result<(), String>>>,
-    panics: Vec<String>,
-    usage0: (usize, usize),
+    /// recover(tenant) before the quota change: (returned counts, usage after it)
+    rec_before: Option<((usize, usize), (usize, usize))>,
+    /// usage right after update_quotas (None for the first phase)
+    usage_after_update: Option<(usize, usize)>,
+    /// after this phase's writers finished
+    usage: (usize, usize),
     scan_nodes: BTreeSet<u64>,
     scan_edges: BTreeSet<u64>,
-    /// per recover call: (returned counts, usage after, scan counts after)
-    recs: Vec<((usize, usize), (usize, usize), (usize, usize))>,
-    /// usage just before the first recover (0,0 after a reopen)
-    usage_before_recover: (usize, usize),
 }
 
-fn c18_ids(t: usize, j: usize) -> u64 {
-    (t * 4 + j + 1) as u64
+#[derive(Debug, Default)]
+struct C18Obs {
+    /// all phases' events, in order
+    trace: Vec<(u8, String)>,
+    panics: Vec<String>,
+    phases: Vec<PhaseObs>,
+    /// per final recover call: (returned counts, usage after)
+    recs: Vec<((usize, usize), (usize, usize))>,
 }
 
-fn c18_exec(arena: &mut Arena, case: &C18Case) -> Result<C18Obs, String> {
-    let n = case.threads.len();
-    let tenant = arena.new_tenant(case.max_nodes, case.max_edges)?;
+fn c18_ids(p: usize, t: usize, j: usize) -> u64 {
+    (p * 64 + t * 4 + j + 1) as u64
+}
+
+type C18State = ((usize, usize), BTreeSet<u64>, BTreeSet<u64>);
+
+fn c18_read(pm: &PersistenceManager, tenant: &str) -> Result<C18State, String> {
+    let r = catch(|| -> Result<C18State, String> {
+        let u = pm.tenants().get_usage(tenant).map_err(|e| format!("get_usage refused: {e}"))?;
+        let ns = pm.storage().scan_nodes(tenant).map_err(|e| format!("scan_nodes refused: {e}"))?;
+        let es = pm.storage().scan_edges(tenant).map_err(|e| format!("scan_edges refused: {e}"))?;
+        Ok(((u.node_count, u.edge_count), ns.iter().map(|x| x.id.as_u64()).collect(), es.iter().map(|x| x.id.as_u64()).collect()))
+    });
+    r.map_err(|p| format!("reading usage/storage panicked: {p}"))?
+}
+
+/// recover(tenant): (returned counts, usage afterwards)
+fn c18_recover(pm: &PersistenceManager, tenant: &str) -> Result<((usize, usize), (usize, usize)), String> {
+    let (rn, re) = catch(|| pm.recover(tenant)).map_err(|p| format!("recover panicked: {p}"))?.map_err(|e| format!("recover refused: {e}"))?;
+    let u = pm.tenants().get_usage(tenant).map_err(|e| format!("get_usage refused: {e}"))?;
+    Ok(((rn.len(), re.len()), (u.node_count, u.edge_count)))
+}
+
+/// One phase's writers under the scheduler. Appends to `obs.trace` / `obs.panics`.
+fn c18_run_writers(arena: &Arena, tenant: &str, phase: usize, threads: &[String], schedule: &[u8], obs: &mut C18Obs) -> Result<Vec<Vec<Result<(), String>>>, String> {
+    let n = threads.len();
+    if n > 3 || threads.iter().any(|t| t.len() > 4) {
+        return Err("harness: at most 3 writer threads of at most 4 creations".into());
+    }
+    if n == 0 {
+        return Ok(Vec::new());
+    }
     let sched = Arc::new(Sched::new(n));
     {
         let s2 = Arc::clone(&sched);
@@ -1490,18 +1738,15 @@ fn c18_exec(arena: &mut Arena, case: &C18Case) -> Result<C18Obs, String> {
             }
         })));
     }
-    if n > 3 {
-        return Err("harness: at most 3 writer threads".into());
-    }
-    for (tid, ops) in case.threads.iter().enumerate() {
+    for (tid, ops) in threads.iter().enumerate() {
         let sched = Arc::clone(&sched);
         let pm = arena.pm();
-        let tenant = tenant.clone();
+        let tenant = tenant.to_string();
         let ops: Vec<char> = ops.chars().collect();
         let job: Job = Box::new(move || {
             sched.point(tid, "start", true);
             for (j, kind) in ops.iter().enumerate() {
-                let id = c18_ids(tid, j);
+                let id = c18_ids(phase, tid, j);
                 let r = catch(|| {
                     if *kind == 'n' {
                         pm.persist_create_node(&tenant, &Node::new(NodeId::new(id), Label::new("Q"))).map_err(|e| e.to_string())
@@ -1536,7 +1781,7 @@ fn c18_exec(arena: &mut Arena, case: &C18Case) -> Result<C18Obs, String> {
         eprintln!("INCONCLUSIVE: C18 worker threads did not reach their start point");
         std::process::exit(2);
     }
-    for t in &case.schedule {
+    for t in schedule {
         if (*t as usize) < n {
             sched.step(*t as usize);
         }
@@ -1560,7 +1805,7 @@ fn c18_exec(arena: &mut Arena, case: &C18Case) -> Result<C18Obs, String> {
         if !progressed {
             idle_rounds += 1;
             if idle_rounds > 5 {
-                eprintln!("INCONCLUSIVE: C18 writers deadlocked under schedule {:?}", case.schedule);
+                eprintln!("INCONCLUSIVE: C18 writers deadlocked under schedule {:?}", schedule);
                 std::process::exit(2);
             }
             sched.wait_all_parked_or_done();
@@ -1569,37 +1814,48 @@ fn c18_exec(arena: &mut Arena, case: &C18Case) -> Result<C18Obs, String> {
         }
     }
     samyama::verif_hooks::install(None);
+    let mut st = sched.lock();
+    obs.trace.append(&mut st.trace);
+    obs.panics.append(&mut st.panics);
+    Ok(std::mem::take(&mut st.results))
+}
+
+fn c18_exec(arena: &mut Arena, case: &C18Case) -> Result<C18Obs, String> {
+    let views = case.views();
+    let tenant = arena.new_tenant(case.max_nodes, case.max_edges)?;
     let mut obs = C18Obs::default();
-    {
-        let mut st = sched.lock();
-        obs.trace = std::mem::take(&mut st.trace);
-        obs.results = std::mem::take(&mut st.results);
-        obs.panics = std::mem::take(&mut st.panics);
+    let mut in_force = (case.max_nodes, case.max_edges);
+    for (p, ph) in views.iter().enumerate() {
+        let mut po = PhaseObs::default();
+        if p > 0 {
+            if ph.reopen_before {
+                arena.reopen()?;
+                arena.pm().tenants().create_tenant(tenant.clone(), tenant.clone(), Some(c18_quotas(in_force.0, in_force.1))).map_err(|e| format!("create_tenant after reopen refused: {e}"))?;
+            }
+            if ph.reopen_before || ph.recover_before {
+                po.rec_before = Some(c18_recover(&arena.pm(), &tenant)?);
+            }
+            let pm = arena.pm();
+            catch(|| pm.tenants().update_quotas(&tenant, c18_quotas(ph.max_nodes, ph.max_edges))).map_err(|p| format!("update_quotas panicked: {p}"))?.map_err(|e| format!("update_quotas refused: {e}"))?;
+            in_force = (ph.max_nodes, ph.max_edges);
+            let u = pm.tenants().get_usage(&tenant).map_err(|e| format!("get_usage refused: {e}"))?;
+            po.usage_after_update = Some((u.node_count, u.edge_count));
+        }
+        po.results = c18_run_writers(arena, &tenant, p, ph.threads, ph.schedule, &mut obs)?;
+        let (u, sn, se) = c18_read(&arena.pm(), &tenant)?;
+        po.usage = u;
+        po.scan_nodes = sn;
+        po.scan_edges = se;
+        obs.phases.push(po);
     }
-    let read = |pm: &PersistenceManager| -> Result<((usize, usize), BTreeSet<u64>, BTreeSet<u64>), String> {
-        let u = pm.tenants().get_usage(&tenant).map_err(|e| format!("get_usage refused: {e}"))?;
-        let ns = pm.storage().scan_nodes(&tenant).map_err(|e| format!("scan_nodes refused: {e}"))?;
-        let es = pm.storage().scan_edges(&tenant).map_err(|e| format!("scan_edges refused: {e}"))?;
-        Ok(((u.node_count, u.edge_count), ns.iter().map(|x| x.id.as_u64()).collect(), es.iter().map(|x| x.id.as_u64()).collect()))
-    };
-    let pm = arena.pm();
-    let (u0, sn, se) = catch(|| read(&pm)).map_err(|p| format!("reading usage/storage panicked: {p}"))??;
-    drop(pm);
-    obs.usage0 = u0;
-    obs.scan_nodes = sn;
-    obs.scan_edges = se;
-    obs.usage_before_recover = u0;
     if case.reopen {
         arena.reopen()?;
-        arena.pm().tenants().create_tenant(tenant.clone(), tenant.clone(), Some(c18_quotas(case.max_nodes, case.max_edges))).map_err(|e| format!("create_tenant after reopen refused: {e}"))?;
-        obs.usage_before_recover = (0, 0);
+        arena.pm().tenants().create_tenant(tenant.clone(), tenant.clone(), Some(c18_quotas(in_force.0, in_force.1))).map_err(|e| format!("create_tenant after reopen refused: {e}"))?;
     }
     let pm = arena.pm();
     for _ in 0..case.recovers {
-        let (rn, re) = catch(|| pm.recover(&tenant)).map_err(|p| format!("recover panicked: {p}"))?.map_err(|e| format!("recover refused: {e}"))?;
-        // nothing writes between the recover calls: storage still holds what was scanned above
-        let u = pm.tenants().get_usage(&tenant).map_err(|e| format!("get_usage refused: {e}"))?;
-        obs.recs.push(((rn.len(), re.len()), (u.node_count, u.edge_count), (obs.scan_nodes.len(), obs.scan_edges.len())));
+        // nothing writes between the recover calls: storage still holds what was scanned last
+        obs.recs.push(c18_recover(&pm, &tenant)?);
     }
     Ok(obs)
 }
@@ -1611,58 +1867,124 @@ struct C18Judged {
     overlap: bool,
     accepted: (usize, usize),
     refused: usize,
+    /// creations refused after a quota change
+    refused_later: usize,
+    /// creations accepted on a resource that had no limit at that time
+    accepted_unlimited: usize,
+    /// some quota change put a limit below what was already persisted
+    lowered_below_persisted: bool,
 }
 
+/// The oracle. Every phase ends at a quiescent point where usage and storage are read;
+/// `persisted` (what storage held at the previous quiescent point) is the base the quota in
+/// force is measured against: with a limit of q on a resource a phase may accept at most
+/// q - persisted (not below 0) creations of it.
 fn c18_judge(case: &C18Case, obs: &C18Obs) -> C18Judged {
     let mut failures: Vec<(&'static str, String)> = Vec::new();
     for p in &obs.panics {
         failures.push(("panic", format!("a creation panicked: {p}")));
     }
+    let views = case.views();
+    let many = views.len() > 1;
     let mut acc_n = BTreeSet::new();
     let mut acc_e = BTreeSet::new();
-    let mut refused = 0usize;
-    for (t, ops) in case.threads.iter().enumerate() {
-        for (j, kind) in ops.chars().enumerate() {
-            match obs.results.get(t).and_then(|r| r.get(j)) {
-                Some(Ok(())) => {
-                    if kind == 'n' {
-                        acc_n.insert(c18_ids(t, j));
-                    } else {
-                        acc_e.insert(c18_ids(t, j));
-                    }
-                }
-                Some(Err(_)) => refused += 1,
-                None => failures.push(("harness", format!("thread {t} op {j} has no result"))),
+    let (mut refused, mut refused_later, mut accepted_unlimited) = (0usize, 0usize, 0usize);
+    let mut lowered_below_persisted = false;
+    let mut persisted = (0usize, 0usize);
+    for (p, ph) in views.iter().enumerate() {
+        let Some(po) = obs.phases.get(p) else {
+            failures.push(("harness", format!("phase {p} was not observed")));
+            break;
+        };
+        let at = if many { format!(" in phase {p} (quota nodes/relationships {}/{})", quota_text(ph.max_nodes), quota_text(ph.max_edges)) } else { String::new() };
+        if let Some((ret, usage)) = &po.rec_before {
+            let how = if ph.reopen_before { "on a reopened manager" } else { "on the same manager" };
+            if *ret != persisted {
+                failures.push(("recover_mismatch", format!("recover {how} before phase {p} returned {ret:?} entities but storage holds {persisted:?}")));
+            }
+            if *usage != persisted {
+                failures.push(("usage_after_recover", format!("after recover {how} before phase {p} usage (nodes, relationships) = {usage:?} but storage holds {persisted:?}")));
             }
         }
-    }
-    if acc_n.len() > case.max_nodes {
-        failures.push(("over_quota", format!("{} node creations were accepted against a quota of {} nodes", acc_n.len(), case.max_nodes)));
-    }
-    if acc_e.len() > case.max_edges {
-        failures.push(("over_quota", format!("{} relationship creations were accepted against a quota of {} relationships", acc_e.len(), case.max_edges)));
-    }
-    let left_n: Vec<u64> = obs.scan_nodes.difference(&acc_n).cloned().collect();
-    let left_e: Vec<u64> = obs.scan_edges.difference(&acc_e).cloned().collect();
-    if !left_n.is_empty() || !left_e.is_empty() {
-        failures.push(("refused_left_data", format!("refused creations left entities behind: nodes {left_n:?} relationships {left_e:?}")));
-    }
-    if obs.usage0 != (obs.scan_nodes.len(), obs.scan_edges.len()) {
-        failures.push(("usage_mismatch", format!("after the writers finished usage (nodes, relationships) = {:?} but storage holds {:?}", obs.usage0, (obs.scan_nodes.len(), obs.scan_edges.len()))));
-    }
-    for (i, (ret, usage, scan)) in obs.recs.iter().enumerate() {
-        if ret != scan {
-            failures.push(("recover_mismatch", format!("recover call {} returned {:?} entities but storage holds {:?}", i + 1, ret, scan)));
+        if let Some(u) = po.usage_after_update {
+            if u != persisted {
+                failures.push(("usage_mismatch", format!("after update_quotas to nodes/relationships {}/{} usage (nodes, relationships) = {u:?} but storage holds {persisted:?}", quota_text(ph.max_nodes), quota_text(ph.max_edges))));
+            }
+            if ph.max_nodes.map(|q| q < persisted.0).unwrap_or(false) || ph.max_edges.map(|q| q < persisted.1).unwrap_or(false) {
+                lowered_below_persisted = true;
+            }
         }
-        if usage != scan {
-            failures.push(("usage_after_recover", format!("after recover call {}{} usage (nodes, relationships) = {:?} but storage holds {:?}", i + 1, if case.reopen { " on a reopened manager" } else { " on the same manager" }, usage, scan)));
+        let (mut new_n, mut new_e) = (0usize, 0usize);
+        for (t, ops) in ph.threads.iter().enumerate() {
+            for (j, kind) in ops.chars().enumerate() {
+                match po.results.get(t).and_then(|r| r.get(j)) {
+                    Some(Ok(())) => {
+                        if kind == 'n' {
+                            acc_n.insert(c18_ids(p, t, j));
+                            new_n += 1;
+                            if ph.max_nodes.is_none() {
+                                accepted_unlimited += 1;
+                            }
+                        } else {
+                            acc_e.insert(c18_ids(p, t, j));
+                            new_e += 1;
+                            if ph.max_edges.is_none() {
+                                accepted_unlimited += 1;
+                            }
+                        }
+                    }
+                    Some(Err(_)) => {
+                        refused += 1;
+                        if p > 0 {
+                            refused_later += 1;
+                        }
+                    }
+                    None => failures.push(("harness", format!("phase {p} thread {t} op {j} has no result"))),
+                }
+            }
+        }
+        for (what, new, quota, had) in [("node", new_n, ph.max_nodes, persisted.0), ("relationship", new_e, ph.max_edges, persisted.1)] {
+            if let Some(q) = quota {
+                if new > q.saturating_sub(had) {
+                    let base = if had > 0 { format!(" while {had} were already persisted") } else { String::new() };
+                    failures.push(("over_quota", format!("{new} {what} creations were accepted{base} against a quota of {q} {what}s{at}")));
+                }
+            }
+        }
+        let left_n: Vec<u64> = po.scan_nodes.difference(&acc_n).cloned().collect();
+        let left_e: Vec<u64> = po.scan_edges.difference(&acc_e).cloned().collect();
+        if !left_n.is_empty() || !left_e.is_empty() {
+            failures.push(("refused_left_data", format!("refused creations left entities behind{at}: nodes {left_n:?} relationships {left_e:?}")));
+        }
+        let miss_n: Vec<u64> = acc_n.difference(&po.scan_nodes).cloned().collect();
+        let miss_e: Vec<u64> = acc_e.difference(&po.scan_edges).cloned().collect();
+        if !miss_n.is_empty() || !miss_e.is_empty() {
+            failures.push(("accepted_missing", format!("accepted creations are not in storage{at}: nodes {miss_n:?} relationships {miss_e:?}")));
+        }
+        let scan = (po.scan_nodes.len(), po.scan_edges.len());
+        if po.usage != scan {
+            failures.push(("usage_mismatch", format!("after the writers finished{at} usage (nodes, relationships) = {:?} but storage holds {:?}", po.usage, scan)));
+        }
+        persisted = scan;
+    }
+    for (i, (ret, usage)) in obs.recs.iter().enumerate() {
+        if *ret != persisted {
+            failures.push(("recover_mismatch", format!("recover call {} returned {:?} entities but storage holds {:?}", i + 1, ret, persisted)));
+        }
+        if *usage != persisted {
+            failures.push(("usage_after_recover", format!("after recover call {}{} usage (nodes, relationships) = {:?} but storage holds {:?}", i + 1, if case.reopen { " on a reopened manager" } else { " on the same manager" }, usage, persisted)));
         }
     }
     // overlap: a thread is "inside" from after_quota_check until after_usage / its result
-    let mut inside = vec![false; case.threads.len()];
+    // (all of a phase's threads have reported their results before the next phase starts)
+    let width = views.iter().map(|v| v.threads.len()).max().unwrap_or(0);
+    let mut inside = vec![false; width];
     let mut overlap = false;
     for (t, ev) in &obs.trace {
         let t = *t as usize;
+        if t >= width {
+            continue;
+        }
         if ev.ends_with(":after_quota_check") {
             inside[t] = true;
         } else if ev.ends_with(":after_usage") || ev.starts_with("result:") {
@@ -1672,81 +1994,15 @@ fn c18_judge(case: &C18Case, obs: &C18Obs) -> C18Judged {
             overlap = true;
         }
     }
-    C18Judged { failures, overlap, accepted: (acc_n.len(), acc_e.len()), refused }
-}
-
-/// KF-C18-1 matcher: replay the trace through the pinned tree's semantics — the quota check
-/// reads the usage counter, the increment happens at after_usage, nothing ties the two —
-/// and require that it predicts every observed pass/refusal exactly.
-fn c18_explained_by_nonatomic_check(case: &C18Case, obs: &C18Obs) -> bool {
-    let n = case.threads.len();
-    let kinds: Vec<Vec<char>> = case.threads.iter().map(|s| s.chars().collect()).collect();
-    let mut op_idx = vec![0usize; n];
-    let mut checked = vec![false; n]; // current op passed its check
-    let (mut un, mut ue) = (0usize, 0usize);
-    for (t, ev) in &obs.trace {
-        let t = *t as usize;
-        let kind = match kinds[t].get(op_idx[t]) {
-            Some(k) => *k,
-            None => {
-                if ev == "start" {
-                    continue;
-                }
-                return false;
-            }
-        };
-        let (usage, quota) = if kind == 'n' { (un, case.max_nodes) } else { (ue, case.max_edges) };
-        if ev.ends_with(":after_quota_check") {
-            if usage >= quota {
-                return false; // the model would have refused
-            }
-            checked[t] = true;
-        } else if ev.ends_with(":after_usage") {
-            if kind == 'n' {
-                un += 1
-            } else {
-                ue += 1
-            }
-        } else if ev == "result:ok" {
-            if !checked[t] {
-                return false;
-            }
-            checked[t] = false;
-            op_idx[t] += 1;
-        } else if ev == "result:refused" {
-            // refused at the check (no hook of this op was reached): model must refuse too
-            if checked[t] || usage < quota {
-                return false;
-            }
-            op_idx[t] += 1;
-        } else if ev == "result:panic" {
-            return false;
-        }
-    }
-    true
-}
-
-/// KF-C18-2 matcher: recover adds the recovered counts to the usage counters instead of
-/// setting them: after the i-th call usage == usage before the first call + i × stored.
-fn c18_explained_by_additive_recover(obs: &C18Obs) -> bool {
-    let stored = (obs.scan_nodes.len(), obs.scan_edges.len());
-    let b = obs.usage_before_recover;
-    !obs.recs.is_empty()
-        && obs.recs.iter().enumerate().all(|(i, (ret, usage, scan))| ret == scan && *scan == stored && *usage == (b.0 + (i + 1) * stored.0, b.1 + (i + 1) * stored.1))
-}
-
-struct C18Kf {
-    nonatomic: bool,
-    additive: bool,
+    C18Judged { failures, overlap, accepted: (acc_n.len(), acc_e.len()), refused, refused_later, accepted_unlimited, lowered_below_persisted }
 }
 
 enum C18Verdict {
     Held,
-    Known(Vec<&'static str>),
     Fail(String),
 }
 
-fn c18_check(arena: &mut Arena, case: &C18Case, kf: &C18Kf) -> (C18Verdict, Option<(C18Judged, C18Obs)>) {
+fn c18_check(arena: &mut Arena, case: &C18Case) -> (C18Verdict, Option<(C18Judged, C18Obs)>) {
     let obs = match c18_exec(arena, case) {
         Ok(o) => o,
         Err(m) => return (C18Verdict::Fail(m), None),
@@ -1755,29 +2011,9 @@ fn c18_check(arena: &mut Arena, case: &C18Case, kf: &C18Kf) -> (C18Verdict, Opti
     if j.failures.is_empty() {
         return (C18Verdict::Held, Some((j, obs)));
     }
-    let mut hits: Vec<&'static str> = Vec::new();
-    let mut unexplained: Vec<String> = Vec::new();
-    for (kind, msg) in &j.failures {
-        match *kind {
-            "over_quota" if kf.nonatomic && c18_explained_by_nonatomic_check(case, &obs) => {
-                if !hits.contains(&"KF-C18-1") {
-                    hits.push("KF-C18-1")
-                }
-            }
-            "usage_after_recover" if kf.additive && c18_explained_by_additive_recover(&obs) => {
-                if !hits.contains(&"KF-C18-2") {
-                    hits.push("KF-C18-2")
-                }
-            }
-            _ => unexplained.push(msg.clone()),
-        }
-    }
-    if unexplained.is_empty() {
-        (C18Verdict::Known(hits), Some((j, obs)))
-    } else {
-        let trace: Vec<String> = obs.trace.iter().map(|(t, e)| format!("T{t}:{}", e.rsplit(':').next().unwrap_or(e))).collect();
-        (C18Verdict::Fail(format!("{} ; interleaving: {}", unexplained.join(" ; "), trace.join(" "))), Some((j, obs)))
-    }
+    let msgs: Vec<String> = j.failures.iter().map(|f| f.1.clone()).collect();
+    let trace: Vec<String> = obs.trace.iter().map(|(t, e)| format!("T{t}:{}", e.rsplit(':').next().unwrap_or(e))).collect();
+    (C18Verdict::Fail(format!("{} ; interleaving: {}", msgs.join(" ; "), trace.join(" "))), Some((j, obs)))
 }
 
 // ---------------------------------------------------------------------------------------
@@ -1794,16 +2030,24 @@ struct StressCfg {
     /// creations performed sequentially before the writers start (brings the tenant close
     /// to its quota)
     prefill: String,
-    max_nodes: usize,
-    max_edges: usize,
+    /// quotas in force while the writers race; null = no limit
+    max_nodes: Option<usize>,
+    max_edges: Option<usize>,
+    /// when present: the tenant is created with these quotas, the prefill runs under them and
+    /// update_quotas(max_nodes, max_edges) is called before the writers start
+    #[serde(default, skip_serializing_if = "Option::is_none")]
+    start: Option<(Option<usize>, Option<usize>)>,
 }
 
-/// deterministic round-robin over thread counts 2..=8, op patterns, quotas 1..=2, prefill
+/// deterministic round-robin over thread counts 2..=8, op patterns, quotas 1..=2, prefill;
+/// every fourth block of 112 rounds uses tenants without a limit (both resources / one of
+/// them), every other fourth a quota change between prefill and race
 fn stress_cfg(r: u64) -> StressCfg {
     let n = 2 + (r % 7) as usize;
     let pattern = (r / 7) % 4;
     let q = 1 + ((r / 28) % 2) as usize;
-    let pre = ((r / 56) % q as u64) as usize;
+    let variant = (r / 112) % 4;
+    let sub = (r / 448) % 3;
     let threads: Vec<String> = (0..n)
         .map(|t| match pattern {
             0 => "n".to_string(),
@@ -1812,12 +2056,33 @@ fn stress_cfg(r: u64) -> StressCfg {
             _ => if t % 2 == 0 { "ne".to_string() } else { "en".to_string() },
         })
         .collect();
-    let prefill = match pattern {
+    let fill = |pre: usize| match pattern {
         0 => "n".repeat(pre),
         1 => "e".repeat(pre),
-        _ => format!("{}{}", "n".repeat(pre), "e".repeat(pre)),
+        _ => format!("{}{}", "n".repeat(pre.min(2)), "e".repeat(pre.min(2))),
     };
-    StressCfg { threads, prefill, max_nodes: q, max_edges: q }
+    let pre = ((r / 56) % q as u64) as usize;
+    match variant {
+        2 => {
+            let (mn, me) = match sub {
+                0 => (None, None),
+                1 => (None, Some(q)),
+                _ => (Some(q), None),
+            };
+            StressCfg { threads, prefill: fill(pre), max_nodes: mn, max_edges: me, start: None }
+        }
+        3 => {
+            // prefill up to one above the quota that will be in force during the race
+            let pre = ((r / 56) % (q as u64 + 2)) as usize;
+            let (start, now) = match sub {
+                0 => ((None, None), (Some(q), Some(q))),
+                1 => ((Some(q + 1), Some(q + 1)), (Some(q), Some(q))),
+                _ => ((Some(q), Some(q)), (None, None)),
+            };
+            StressCfg { threads, prefill: fill(pre), max_nodes: now.0, max_edges: now.1, start: Some(start) }
+        }
+        _ => StressCfg { threads, prefill: fill(pre), max_nodes: Some(q), max_edges: Some(q), start: None },
+    }
 }
 
 fn stress_create(pm: &PersistenceManager, tenant: &str, kind: char, id: u64) -> Result<(), String> {
@@ -1839,14 +2104,29 @@ fn c18_stress_round(arena: &mut Arena, cfg: &StressCfg) -> Result<(usize, Vec<St
     if n > 8 || cfg.threads.iter().any(|t| t.len() > 4) || cfg.prefill.len() > 4 {
         return Err("harness: stress configuration out of range (<= 8 threads, <= 4 ops each)".into());
     }
-    let tenant = arena.new_tenant(cfg.max_nodes, cfg.max_edges)?;
+    let first = cfg.start.unwrap_or((cfg.max_nodes, cfg.max_edges));
+    let tenant = arena.new_tenant(first.0, first.1)?;
     let pm = arena.pm();
-    // the prefill acts as one more (sequential) writer, index n, for the bookkeeping
-    let mut case = C18Case { threads: cfg.threads.clone(), max_nodes: cfg.max_nodes, max_edges: cfg.max_edges, schedule: Vec::new(), recovers: 2, reopen: false };
+    // Bookkeeping for the oracle. Without a quota change the prefill acts as one more
+    // (sequential) writer, index n, of the only phase; with one, the prefill is the first
+    // phase and the racing writers are the second.
+    let race_phase = usize::from(cfg.start.is_some());
     let mut obs = C18Obs::default();
     let mut prefill_results = Vec::new();
     for (j, kind) in cfg.prefill.chars().enumerate() {
-        prefill_results.push(stress_create(&pm, &tenant, kind, c18_ids(n, j)));
+        let id = if race_phase == 1 { c18_ids(0, 0, j) } else { c18_ids(0, n, j) };
+        prefill_results.push(stress_create(&pm, &tenant, kind, id));
+    }
+    let mut case = C18Case::single(cfg.threads.clone(), cfg.max_nodes, cfg.max_edges, Vec::new(), 2, false);
+    let mut race = PhaseObs::default();
+    if race_phase == 1 {
+        case = C18Case::single(vec![cfg.prefill.clone()], first.0, first.1, Vec::new(), 2, false);
+        case.phases.push(C18Phase { max_nodes: cfg.max_nodes, max_edges: cfg.max_edges, threads: cfg.threads.clone(), schedule: Vec::new(), recover_before: false, reopen_before: false });
+        let (u, sn, se) = c18_read(&pm, &tenant)?;
+        obs.phases.push(PhaseObs { results: vec![prefill_results.clone()], rec_before: None, usage_after_update: None, usage: u, scan_nodes: sn, scan_edges: se });
+        pm.tenants().update_quotas(&tenant, c18_quotas(cfg.max_nodes, cfg.max_edges)).map_err(|e| format!("update_quotas refused: {e}"))?;
+        let u = pm.tenants().get_usage(&tenant).map_err(|e| format!("get_usage refused: {e}"))?;
+        race.usage_after_update = Some((u.node_count, u.edge_count));
     }
     // persistent writer threads (no spawn per round); each gets its job over a channel and then
     // waits in a spin barrier so that all writers enter the call within nanoseconds of each other
@@ -1869,7 +2149,7 @@ fn c18_stress_round(arena: &mut Arena, cfg: &StressCfg) -> Result<(usize, Vec<St
                     std::hint::spin_loop();
                 }
             }
-            let res: Vec<Result<(), String>> = ops.iter().enumerate().map(|(j, kind)| stress_create(&pm, &tenant, *kind, c18_ids(t, j))).collect();
+            let res: Vec<Result<(), String>> = ops.iter().enumerate().map(|(j, kind)| stress_create(&pm, &tenant, *kind, c18_ids(race_phase, t, j))).collect();
             drop(pm);
             let _ = rtx.send((t, res));
         });
@@ -1886,29 +2166,25 @@ fn c18_stress_round(arena: &mut Arena, cfg: &StressCfg) -> Result<(usize, Vec<St
             }
         }
     }
-    obs.results = results;
-    if !cfg.prefill.is_empty() {
+    race.results = results;
+    if race_phase == 0 && !cfg.prefill.is_empty() {
         case.threads.push(cfg.prefill.clone());
-        obs.results.push(prefill_results);
+        race.results.push(prefill_results);
     }
-    for r in obs.results.iter().flatten() {
+    let (u, sn, se) = c18_read(&pm, &tenant)?;
+    race.usage = u;
+    race.scan_nodes = sn;
+    race.scan_edges = se;
+    obs.phases.push(race);
+    for r in obs.phases.iter().flat_map(|p| p.results.iter().flatten()) {
         if let Err(m) = r {
             if m.starts_with("panic: ") {
                 obs.panics.push(m.clone());
             }
         }
     }
-    let u = pm.tenants().get_usage(&tenant).map_err(|e| format!("get_usage refused: {e}"))?;
-    let ns = pm.storage().scan_nodes(&tenant).map_err(|e| format!("scan_nodes refused: {e}"))?;
-    let es = pm.storage().scan_edges(&tenant).map_err(|e| format!("scan_edges refused: {e}"))?;
-    obs.usage0 = (u.node_count, u.edge_count);
-    obs.usage_before_recover = obs.usage0;
-    obs.scan_nodes = ns.iter().map(|x| x.id.as_u64()).collect();
-    obs.scan_edges = es.iter().map(|x| x.id.as_u64()).collect();
     for _ in 0..case.recovers {
-        let (rn, re) = catch(|| pm.recover(&tenant)).map_err(|p| format!("recover panicked: {p}"))?.map_err(|e| format!("recover refused: {e}"))?;
-        let u = pm.tenants().get_usage(&tenant).map_err(|e| format!("get_usage refused: {e}"))?;
-        obs.recs.push(((rn.len(), re.len()), (u.node_count, u.edge_count), (obs.scan_nodes.len(), obs.scan_edges.len())));
+        obs.recs.push(c18_recover(&pm, &tenant)?);
     }
     let j = c18_judge(&case, &obs);
     Ok((j.refused, j.failures.into_iter().map(|f| f.1).collect()))
@@ -1956,20 +2232,19 @@ fn c18(args: &Args) {
     let mut ev = Evidence::new(
         args,
         "exploration",
-        "deterministic scheduler: 2-3 real writer threads each doing 1-2 persist_create_node|edge against a tenant with quota 1-2, parked on a condvar at every hook point (after quota check / WAL append / storage write; after_usage is the operation's last statement and does not park), released one step at a time by a schedule = Vec<thread index> (4 steps per creation). ALL interleavings of 2 threads x 1 op (70 each), 2x2 (12870 each) and 3x1 (34650 each) for the configurations listed under exhaustive_bound (quick: 5 + 2 + 1 configurations, the other 3x1 configurations sampled; thorough: 5 + 7 + 5), a seeded sample of 3x2; then recover(tenant) three times on the same manager (usage checked after each, so 1, 2 and 3 calls are all covered), plus reopen-then-recover cases on a fresh manager. Oracle: accepted <= quota per resource; refused creations leave nothing in scan_nodes/scan_edges; usage counters == entities in storage after the writers and after every recover; recover returns what storage holds. Then a stress phase: rounds of 2..8 real threads (1-2 creations each, nodes/relationships/mixed, quota 1-2, tenant optionally pre-filled to one below its quota) released together without the scheduler, same oracle. Non-trivial = two threads were between quota check and usage increment at the same time (scheduler part) or more creations attempted than the quota leaves room for (stress part); distinct = distinct (configuration, observed event trace) resp. distinct stress configurations.",
+        "deterministic scheduler: 2-3 real writer threads each doing 1-2 persist_create_node|edge against a tenant with quota 1-2 or WITHOUT a limit (both resources, or one of them with a limit on the other), parked on a condvar at every hook point (after quota check / WAL append / storage write; after_usage is the operation's last statement and does not park), released one step at a time by a schedule = Vec<thread index> (4 steps per creation). ALL interleavings of 2 threads x 1 op (70 each), 2x2 (12870 each) and 3x1 (34650 each) for the configurations listed under exhaustive_bound (the other 3x1 configurations sampled in the quick tier), a seeded sample of 3x2. Histories with quota changes: a case may continue with further phases, each = [recover(tenant) on the same manager | close, reopen, re-register, recover] then TenantManager::update_quotas (unlimited -> N, N -> M up or down, also below what is persisted, N -> unlimited, a limit moving from one resource to the other) then more writers under the scheduler; ALL 70 interleavings of the second phase for the transitions listed under exhaustive_bound.quota_change (with and without a recover in between) and a seeded sample of 2-3 phase histories with random quotas 0-3/unlimited, 1-3 threads x 1-2 creations per phase and random schedules. At the end recover(tenant) up to three times on the same manager (usage checked after each), plus reopen-then-recover cases on a fresh manager. Oracle, evaluated at every quiescent point (after each phase's writers, after each update_quotas, after each recover): per resource the creations accepted in a phase <= quota in force - entities persisted when the phase began (not below 0; no bound without a limit); refused creations leave nothing in scan_nodes/scan_edges and accepted ones are there; usage counters == entities in storage; recover returns what storage holds. Then a stress phase: rounds of 2..8 real threads (1-2 creations each, nodes/relationships/mixed, quota 1-2 or none, tenant optionally pre-filled, optionally with update_quotas between prefill and race) released together without the scheduler, same oracle. Non-trivial = two threads were between quota check and usage increment at the same time, or a creation was accepted on a resource without a limit, or the history has a quota change (scheduler part); more creations attempted than the quota leaves room for, or two or more writers racing on a resource without a limit (stress part); distinct = distinct (configuration, observed event trace) resp. distinct stress configurations.",
     );
     ev.assume("each schedule runs on a fresh tenant of a shared RocksDB directory; tenant names increase so a tenant's prefix scan cannot reach older tenants' keys");
     ev.assume("a writer that does not reach its next hook within 3 s is treated as blocked on a lock and another thread is scheduled (never happens on the pinned tree)");
+    ev.assume("quota changes happen at quiescent points (no creation in flight while update_quotas runs): 'the quota in force at the time of acceptance' is then unambiguous; the tree has no caller of update_quotas outside its unit tests, which replace the whole ResourceQuotas value, as the check does");
     ev.assume("the final stress phase (classes stress_*: 2..8 real threads released together from a spin barrier, no scheduler, same oracle) samples OS schedules: it is nondeterministic by nature, a violation it reports is definite, a clean run says nothing about schedules not sampled, and refusal counts of that phase may vary between runs; it reaches races that have no hook point between their two halves");
-    let kfs = Known::load(args);
 
-    let run_single = |case: &C18Case, kf: &C18Kf| -> C18Verdict {
+    let run_single = |case: &C18Case| -> C18Verdict {
         match Arena::fresh() {
-            Ok(mut a) => c18_check(&mut a, case, kf).0,
+            Ok(mut a) => c18_check(&mut a, case).0,
             Err(m) => C18Verdict::Fail(m),
         }
     };
-    let strict = C18Kf { nonatomic: false, additive: false };
 
     if let Some(p) = &args.replay {
         let raw = load_replay(p);
@@ -1992,9 +2267,8 @@ fn c18(args: &Args) {
         }
         let case: C18Case = serde_json::from_value(raw).expect("replay case");
         ev.case();
-        match run_single(&case, &strict) {
+        match run_single(&case) {
             C18Verdict::Held => println!("replay: property held"),
-            C18Verdict::Known(_) => unreachable!(),
             C18Verdict::Fail(m) => {
                 report_violation(&mut ev, &json!(case), &m);
             }
@@ -2003,22 +2277,6 @@ fn c18(args: &Args) {
         ev.nontrivial(&"replay");
         ev.sample(json!(case));
         finish(&ev);
-    }
-
-    let mut kf = C18Kf { nonatomic: false, additive: false };
-    for (id, slot) in [("KF-C18-1", 0), ("KF-C18-2", 1)] {
-        if kfs.listed(id) {
-            if let Some(w) = witness_case(&kfs, id) {
-                let case: C18Case = serde_json::from_value(w).expect("witness case");
-                let still = matches!(run_single(&case, &strict), C18Verdict::Fail(_));
-                let on = kfs.witness_result(&mut ev, id, still);
-                if slot == 0 {
-                    kf.nonatomic = on
-                } else {
-                    kf.additive = on
-                }
-            }
-        }
     }
 
     let mut failure: Option<(C18Case, String)> = None;
@@ -2030,21 +2288,71 @@ fn c18(args: &Args) {
         }
     };
     let mut since_fresh = 0u32;
+    let mut phased_samples = 0u32;
     let mut judge = |ev: &mut Evidence, case: &C18Case, class: &str| -> Result<(), String> {
         // bound the size of one RocksDB directory / WAL
         since_fresh += 1;
-        if since_fresh > 5000 || case.reopen {
+        if since_fresh > 5000 || case.reopens() {
             arena = Arena::fresh()?;
-            since_fresh = if case.reopen { 5001 } else { 0 };
+            since_fresh = if case.reopens() { 5001 } else { 0 };
         }
         ev.case();
         ev.class(class);
-        let (verdict, info) = c18_check(&mut arena, case, &kf);
+        // shapes of the history
+        match (case.max_nodes, case.max_edges) {
+            (None, None) => {
+                ev.class("tenant_unlimited_quota");
+                ev.class("tenant_unlimited_both_resources");
+            }
+            (None, Some(_)) | (Some(_), None) => {
+                ev.class("tenant_unlimited_quota");
+                ev.class("tenant_limit_on_one_resource_only");
+            }
+            _ => {}
+        }
+        if !case.phases.is_empty() {
+            ev.class("quota_changed_mid_history");
+            let mut prev = (case.max_nodes, case.max_edges);
+            for ph in &case.phases {
+                for (a, b) in [(prev.0, ph.max_nodes), (prev.1, ph.max_edges)] {
+                    match (a, b) {
+                        (None, Some(_)) => ev.class("quota_unlimited_to_limit"),
+                        (Some(_), None) => ev.class("quota_limit_to_unlimited"),
+                        (Some(x), Some(y)) if y > x => ev.class("quota_raised"),
+                        (Some(x), Some(y)) if y < x => ev.class("quota_lowered"),
+                        _ => {}
+                    }
+                }
+                if ph.recover_before {
+                    ev.class("recover_mid_history");
+                }
+                if ph.reopen_before {
+                    ev.class("reopen_mid_history");
+                }
+                prev = (ph.max_nodes, ph.max_edges);
+            }
+        }
+        let (verdict, info) = c18_check(&mut arena, case);
         if let Some((j, obs)) = &info {
             if j.overlap {
                 ev.class("overlap_between_check_and_increment");
-                ev.nontrivial(&(&case.threads, case.max_nodes, case.max_edges, case.reopen, &obs.trace));
-                if ev.want_sample() && j.refused > 0 {
+            }
+            if j.accepted_unlimited > 0 {
+                ev.class("accepted_without_limit");
+            }
+            if j.lowered_below_persisted {
+                ev.class("quota_lowered_below_persisted");
+            }
+            if j.refused_later > 0 {
+                ev.class("refused_after_quota_change");
+            }
+            if j.overlap || j.accepted_unlimited > 0 || !case.phases.is_empty() {
+                ev.nontrivial(&(case.without_schedules(), &obs.trace));
+                if ev.want_sample() && j.refused > 0 && j.overlap && case.phases.is_empty() && ev.samples.len() < 3 {
+                    ev.sample(json!({"case": case, "accepted_nodes_rels": [j.accepted.0, j.accepted.1], "refused": j.refused}));
+                }
+                if ev.want_sample() && !case.phases.is_empty() && j.refused_later > 0 && phased_samples < 3 {
+                    phased_samples += 1;
                     ev.sample(json!({"case": case, "accepted_nodes_rels": [j.accepted.0, j.accepted.1], "refused": j.refused}));
                 }
             }
@@ -2057,12 +2365,6 @@ fn c18(args: &Args) {
         }
         match verdict {
             C18Verdict::Held => Ok(()),
-            C18Verdict::Known(ids) => {
-                for id in ids {
-                    ev.kf_hit(id);
-                }
-                Ok(())
-            }
             C18Verdict::Fail(m) => {
                 ev.frozen = true;
                 Err(m)
@@ -2079,14 +2381,25 @@ fn c18(args: &Args) {
         }
     }
 
-    // exhaustive configurations: (threads, quota)
-    let cfg = |t: &[&str], q: usize| (t.iter().map(|s| s.to_string()).collect::<Vec<String>>(), q);
-    let mut configs: Vec<(Vec<String>, usize)> = vec![
+    // exhaustive configurations: (threads, node quota, relationship quota)
+    type Cfg = (Vec<String>, Option<usize>, Option<usize>);
+    let cfgq = |t: &[&str], qn: Option<usize>, qe: Option<usize>| -> Cfg { (t.iter().map(|s| s.to_string()).collect::<Vec<String>>(), qn, qe) };
+    let cfg = |t: &[&str], q: usize| cfgq(t, Some(q), Some(q));
+    let mut configs: Vec<Cfg> = vec![
         cfg(&["n", "n"], 1),
         cfg(&["n", "n"], 2),
         cfg(&["e", "e"], 1),
         cfg(&["e", "e"], 2),
         cfg(&["n", "e"], 1),
+        // no limit at all / a limit on the other resource only / on this resource only
+        cfgq(&["n", "n"], None, None),
+        cfgq(&["e", "e"], None, None),
+        cfgq(&["n", "e"], None, None),
+        cfgq(&["n", "n"], None, Some(1)),
+        cfgq(&["e", "e"], Some(1), None),
+        cfgq(&["n", "e"], None, Some(1)),
+        cfgq(&["n", "e"], Some(1), None),
+        cfgq(&["n", "n"], Some(1), None),
         cfg(&["nn", "nn"], 1),
         cfg(&["ne", "en"], 1),
         cfg(&["n", "n", "n"], 1),
@@ -2098,14 +2411,24 @@ fn c18(args: &Args) {
             cfg(&["ee", "ee"], 2),
             cfg(&["nn", "ee"], 1),
             cfg(&["ne", "ne"], 2),
+            cfgq(&["ne", "en"], None, Some(1)),
+            cfgq(&["ne", "en"], Some(1), None),
+            cfgq(&["nn", "ee"], None, None),
+            cfgq(&["nn", "nn"], None, Some(1)),
             cfg(&["n", "n", "n"], 2),
             cfg(&["e", "e", "e"], 1),
             cfg(&["e", "e", "e"], 2),
             cfg(&["n", "e", "n"], 1),
+            cfgq(&["n", "e", "n"], None, Some(1)),
+            cfgq(&["n", "n", "n"], None, None),
         ]);
     }
+    let quota_key = |qn: Option<usize>, qe: Option<usize>| match (qn, qe) {
+        (Some(a), Some(b)) if a == b => format!("{a}"),
+        _ => format!("nodes:{},relationships:{}", quota_text(qn), quota_text(qe)),
+    };
     let mut enumerated = serde_json::Map::new();
-    for (threads, q) in &configs {
+    for (threads, qn, qe) in &configs {
         if failure.is_some() {
             break;
         }
@@ -2113,7 +2436,7 @@ fn c18(args: &Args) {
         let class = format!("all_{}x{}", threads.len(), threads[0].len());
         let mut n = 0u64;
         interleavings(&mut counts, &mut Vec::new(), &mut |sched: &[u8]| {
-            let case = C18Case { threads: threads.clone(), max_nodes: *q, max_edges: *q, schedule: sched.to_vec(), recovers: 3, reopen: false };
+            let case = C18Case::single(threads.clone(), *qn, *qe, sched.to_vec(), 3, false);
             n += 1;
             match judge(&mut ev, &case, &class) {
                 Ok(()) => true,
@@ -2123,14 +2446,59 @@ fn c18(args: &Args) {
                 }
             }
         });
-        enumerated.insert(format!("{}|quota={}", threads.join(","), q), json!(n));
+        enumerated.insert(format!("{}|quota={}", threads.join(","), quota_key(*qn, *qe)), json!(n));
+    }
+
+    // quota changes: first phase sequential (threads in index order), update_quotas, then ALL
+    // interleavings of the second phase's two writers; each with and without a recover between
+    let u: Option<usize> = None;
+    let transitions: Vec<((Option<usize>, Option<usize>), (Option<usize>, Option<usize>))> = vec![
+        ((u, u), (Some(1), Some(1))),
+        ((u, u), (Some(2), Some(2))),
+        ((u, u), (Some(3), Some(3))),
+        ((u, u), (u, u)),
+        ((Some(1), Some(1)), (Some(2), Some(2))),
+        ((Some(2), Some(2)), (Some(3), Some(3))),
+        ((Some(2), Some(2)), (Some(1), Some(1))),
+        ((Some(1), Some(1)), (u, u)),
+        ((u, Some(1)), (Some(1), u)),
+        ((Some(1), u), (u, Some(1))),
+        ((u, Some(1)), (Some(2), Some(1))),
+    ];
+    let shapes: Vec<(&str, [&str; 2])> = vec![("nn", ["n", "n"]), ("ee", ["e", "e"]), ("ne", ["n", "e"]), ("nne", ["n", "n"])];
+    let mut enumerated_qc = serde_json::Map::new();
+    'qc: for (from, to) in &transitions {
+        for (first, second) in &shapes {
+            for recover_before in [false, true] {
+                if failure.is_some() {
+                    break 'qc;
+                }
+                let mut counts = vec![STEPS_PER_OP; 2];
+                let mut n = 0u64;
+                interleavings(&mut counts, &mut Vec::new(), &mut |sched: &[u8]| {
+                    let mut case = C18Case::single(vec![first.to_string()], from.0, from.1, Vec::new(), 2, false);
+                    case.phases.push(C18Phase { max_nodes: to.0, max_edges: to.1, threads: second.iter().map(|s| s.to_string()).collect(), schedule: sched.to_vec(), recover_before, reopen_before: false });
+                    n += 1;
+                    match judge(&mut ev, &case, "all_quota_change_then_2x1") {
+                        Ok(()) => true,
+                        Err(m) => {
+                            failure = Some((case, m));
+                            false
+                        }
+                    }
+                });
+                let key = format!("{first} then {}|quota {} -> {}", second.join(","), quota_key(from.0, from.1), quota_key(to.0, to.1));
+                let e = enumerated_qc.entry(key).or_insert(json!(0));
+                *e = json!(e.as_u64().unwrap_or(0) + n);
+            }
+        }
     }
     ev.exhaustive = Some(failure.is_none());
-    ev.set("exhaustive_bound", json!({"interleavings_enumerated_per_configuration": enumerated, "steps_per_creation": STEPS_PER_OP, "recover_calls_checked": [1, 2, 3]}));
+    ev.set("exhaustive_bound", json!({"interleavings_enumerated_per_configuration": enumerated, "quota_change": {"second_phase_interleavings_enumerated_per_configuration (with + without recover in between)": enumerated_qc, "first_phase": "one sequential writer"}, "steps_per_creation": STEPS_PER_OP, "recover_calls_checked": [1, 2, 3]}));
 
     // reopen-then-recover on a fresh manager: a few schedules of every small configuration
     if failure.is_none() {
-        'r: for (threads, q) in configs.iter().filter(|c| c.0.iter().map(|s| s.len()).sum::<usize>() <= 3) {
+        'r: for (threads, qn, qe) in configs.iter().filter(|c| c.0.iter().map(|s| s.len()).sum::<usize>() <= 3) {
             let total: usize = threads.iter().map(|s| s.len() * STEPS_PER_OP).sum();
             let n = threads.len();
             let variants: Vec<Vec<u8>> = vec![
@@ -2139,7 +2507,7 @@ fn c18(args: &Args) {
                 (0..total).map(|i| ((total - 1 - i) % n) as u8).collect(),
             ];
             for schedule in variants.into_iter().take(args.tier.pick(2, 3)) {
-                let case = C18Case { threads: threads.clone(), max_nodes: *q, max_edges: *q, schedule, recovers: 3, reopen: true };
+                let case = C18Case::single(threads.clone(), *qn, *qe, schedule, 3, true);
                 if let Err(m) = judge(&mut ev, &case, "reopen_then_recover") {
                     failure = Some((case, m));
                     break 'r;
@@ -2161,8 +2529,16 @@ fn c18(args: &Args) {
             break;
         }
         let base: Vec<u8> = (0..3u8).flat_map(|t| std::iter::repeat(t).take(ops_per_thread * STEPS_PER_OP)).collect();
-        let strat = (Just(base).prop_shuffle(), 0usize..kinds.len(), 1usize..3);
-        let to_case = |v: &(Vec<u8>, usize, usize)| C18Case { threads: kinds[v.1].iter().map(|s| s.to_string()).collect(), max_nodes: v.2, max_edges: v.2, schedule: v.0.clone(), recovers: 3, reopen: false };
+        // quota 1-2 on both resources; one case in five has no limit on one of them
+        let strat = (Just(base).prop_shuffle(), 0usize..kinds.len(), 1usize..3, 0u8..10);
+        let to_case = |v: &(Vec<u8>, usize, usize, u8)| {
+            let (qn, qe) = match v.3 {
+                0 => (None, Some(v.2)),
+                1 => (Some(v.2), None),
+                _ => (Some(v.2), Some(v.2)),
+            };
+            C18Case::single(kinds[v.1].iter().map(|s| s.to_string()).collect(), qn, qe, v.0.clone(), 3, false)
+        };
         let evc = std::cell::RefCell::new(&mut ev);
         let jc = std::cell::RefCell::new(&mut judge);
         let res = search(args.seed, n, &strat, |v| {
@@ -2177,6 +2553,39 @@ fn c18(args: &Args) {
             failure = Some((to_case(&v), msg));
         }
     }
+
+    // seeded sample of histories with quota changes: 1-3 phases, quotas 0-3 or none per
+    // resource, 1-3 writers x 1-2 creations per phase, random schedules, recover / reopen
+    // between phases, final recovers on the same or a reopened manager
+    if failure.is_none() {
+        let quota = || prop_oneof![3 => Just(None::<usize>), 1 => Just(Some(0usize)), 6 => (1usize..4).prop_map(Some)];
+        let ops = || prop::sample::select(vec!["n", "e", "nn", "ne", "en", "ee"]);
+        let threads = || prop::collection::vec(ops(), 1..=3);
+        let schedule = || prop::collection::vec(0u8..3, 0..=24);
+        let phase = (quota(), quota(), threads(), schedule(), 0u8..8);
+        let strat = (quota(), quota(), threads(), schedule(), prop::collection::vec(phase, 0..=2), 0u8..4, 0u8..4);
+        type PhaseV = (Option<usize>, Option<usize>, Vec<&'static str>, Vec<u8>, u8);
+        let to_case = |v: &(Option<usize>, Option<usize>, Vec<&'static str>, Vec<u8>, Vec<PhaseV>, u8, u8)| {
+            let mut case = C18Case::single(v.2.iter().map(|s| s.to_string()).collect(), v.0, v.1, v.3.clone(), v.5, v.6 == 0);
+            for p in &v.4 {
+                case.phases.push(C18Phase { max_nodes: p.0, max_edges: p.1, threads: p.2.iter().map(|s| s.to_string()).collect(), schedule: p.3.clone(), recover_before: p.4 == 1 || p.4 == 2, reopen_before: p.4 == 0 });
+            }
+            case
+        };
+        let evc = std::cell::RefCell::new(&mut ev);
+        let jc = std::cell::RefCell::new(&mut judge);
+        let res = search(args.seed, args.tier.pick(1500, 60_000), &strat, |v| {
+            let case = to_case(v);
+            let mut e = evc.borrow_mut();
+            let mut j = jc.borrow_mut();
+            (*j)(&mut **e, &case, "sample_quota_histories")
+        });
+        drop(evc);
+        drop(jc);
+        if let Some((v, msg)) = res {
+            failure = Some((to_case(&v), msg));
+        }
+    }
     drop(judge);
 
     // stress phase: N = 2..8 real threads released together, no scheduler, fresh tenant per round
@@ -2184,7 +2593,7 @@ fn c18(args: &Args) {
     if failure.is_none() {
         samyama::verif_hooks::install(None);
         let rounds = args.tier.pick(10_000u64, 150_000u64);
-        let (mut refused_total, mut contended) = (0u64, 0u64);
+        let (mut refused_total, mut contended, mut unlimited_raced) = (0u64, 0u64, 0u64);
         let mut since = 0u32;
         for r in 0..rounds {
             since += 1;
@@ -2202,18 +2611,30 @@ fn c18(args: &Args) {
             ev.case();
             ev.class("stress_round");
             ev.class(&format!("stress_threads_{}", cfg.threads.len()));
+            if cfg.max_nodes.is_none() || cfg.max_edges.is_none() || cfg.start.map(|s| s.0.is_none() || s.1.is_none()).unwrap_or(false) {
+                ev.class("stress_tenant_unlimited_quota");
+            }
+            if cfg.start.is_some() {
+                ev.class("stress_quota_changed_before_race");
+            }
             // more attempts than room for some resource: the writers contend for the quota
             let attempts = |k: char| cfg.threads.iter().map(|t| t.chars().filter(|c| *c == k).count()).sum::<usize>();
-            let room = |k: char, q: usize| q.saturating_sub(cfg.prefill.chars().filter(|c| *c == k).count());
-            if attempts('n') > room('n', cfg.max_nodes) || attempts('e') > room('e', cfg.max_edges) {
+            let filled = |k: char| cfg.prefill.chars().filter(|c| *c == k).count();
+            let over = |k: char, q: Option<usize>| q.map(|q| attempts(k) > q.saturating_sub(filled(k))).unwrap_or(false);
+            let free_race = |k: char, q: Option<usize>| q.is_none() && attempts(k) >= 2;
+            if over('n', cfg.max_nodes) || over('e', cfg.max_edges) {
                 contended += 1;
+                ev.nontrivial(&("stress", &cfg));
+            } else if free_race('n', cfg.max_nodes) || free_race('e', cfg.max_edges) {
+                unlimited_raced += 1;
                 ev.nontrivial(&("stress", &cfg));
             }
             match c18_stress_round(&mut arena, &cfg) {
                 Ok((refused, failures)) => {
                     refused_total += refused as u64;
                     if !failures.is_empty() {
-                        let msg = format!("stress round {r} ({} real threads released together, quota nodes/relationships {}/{}, prefill {:?}): {}", cfg.threads.len(), cfg.max_nodes, cfg.max_edges, cfg.prefill, failures.join(" ; "));
+                        let change = cfg.start.map(|s| format!(", created with {}/{} and changed after the prefill", quota_text(s.0), quota_text(s.1))).unwrap_or_default();
+                        let msg = format!("stress round {r} ({} real threads released together, quota nodes/relationships {}/{}{change}, prefill {:?}): {}", cfg.threads.len(), quota_text(cfg.max_nodes), quota_text(cfg.max_edges), cfg.prefill, failures.join(" ; "));
                         stress_failure = Some((json!({"stress": cfg, "rounds": rounds.max(5000)}), msg));
                         break;
                     }
@@ -2224,7 +2645,7 @@ fn c18(args: &Args) {
                 }
             }
         }
-        ev.set("stress", json!({"rounds": rounds, "threads_per_round": "2..=8 (round-robin)", "contended_rounds": contended, "refused_creations": refused_total, "note": "samples OS schedules; what each thread observes may vary between runs"}));
+        ev.set("stress", json!({"rounds": rounds, "threads_per_round": "2..=8 (round-robin)", "contended_rounds": contended, "rounds_racing_on_a_resource_without_limit": unlimited_raced, "refused_creations": refused_total, "note": "samples OS schedules; what each thread observes may vary between runs"}));
     }
     // finish() exits the process without running destructors: remove the scratch store now
     drop(arena);
@@ -2234,12 +2655,37 @@ fn c18(args: &Args) {
     }
 
     if let Some((case, msg)) = failure {
-        // shrink: fewer recover calls, no reopen, shorter schedule, fewer/shorter threads
-        let fails = |c: &C18Case| matches!(run_single(c, &kf), C18Verdict::Fail(_));
+        // shrink: fewer phases, fewer recover calls, no reopen, shorter schedules, fewer/shorter threads
+        let fails = |c: &C18Case| matches!(run_single(c), C18Verdict::Fail(_));
         let mut best = case;
         loop {
             let mut changed = false;
             let mut cands: Vec<C18Case> = Vec::new();
+            if !best.phases.is_empty() {
+                let mut c = best.clone();
+                c.phases.pop();
+                cands.push(c);
+                // drop the first phase: the history starts with the second phase's quotas
+                let mut c = best.clone();
+                let p = c.phases.remove(0);
+                c.max_nodes = p.max_nodes;
+                c.max_edges = p.max_edges;
+                c.threads = p.threads;
+                c.schedule = p.schedule;
+                cands.push(c);
+            }
+            for i in 0..best.phases.len() {
+                if best.phases[i].reopen_before {
+                    let mut c = best.clone();
+                    c.phases[i].reopen_before = false;
+                    cands.push(c);
+                }
+                if best.phases[i].recover_before {
+                    let mut c = best.clone();
+                    c.phases[i].recover_before = false;
+                    cands.push(c);
+                }
+            }
             if best.reopen {
                 let mut c = best.clone();
                 c.reopen = false;
@@ -2250,17 +2696,39 @@ fn c18(args: &Args) {
                 c.recovers -= 1;
                 cands.push(c);
             }
-            for t in (0..best.threads.len()).rev() {
-                if best.threads.len() > 1 {
+            // phase index 0 = the top-level fields
+            for ph in 0..=best.phases.len() {
+                let len = if ph == 0 { best.threads.len() } else { best.phases[ph - 1].threads.len() };
+                for t in (0..len).rev() {
+                    let edit = |c: &mut C18Case, f: &dyn Fn(&mut Vec<String>, &mut Vec<u8>)| {
+                        if ph == 0 {
+                            f(&mut c.threads, &mut c.schedule)
+                        } else {
+                            let p = &mut c.phases[ph - 1];
+                            f(&mut p.threads, &mut p.schedule)
+                        }
+                    };
+                    if len > 1 {
+                        let mut c = best.clone();
+                        edit(&mut c, &|th, sc| {
+                            th.remove(t);
+                            *sc = sc.iter().filter(|x| **x as usize != t).map(|x| if (*x as usize) > t { x - 1 } else { *x }).collect();
+                        });
+                        cands.push(c);
+                    }
                     let mut c = best.clone();
-                    c.threads.remove(t);
-                    c.schedule = c.schedule.iter().filter(|x| **x as usize != t).map(|x| if (*x as usize) > t { x - 1 } else { *x }).collect();
-                    cands.push(c);
-                }
-                if best.threads[t].len() > 1 {
-                    let mut c = best.clone();
-                    c.threads[t].pop();
-                    cands.push(c);
+                    let mut shorter = false;
+                    edit(&mut c, &|th, _| {
+                        if th[t].len() > 1 {
+                            th[t].pop();
+                        }
+                    });
+                    if c != best {
+                        shorter = true;
+                    }
+                    if shorter {
+                        cands.push(c);
+                    }
                 }
             }
             for c in cands {
@@ -2274,14 +2742,25 @@ fn c18(args: &Args) {
                 break;
             }
         }
-        let b2 = best.clone();
-        let sched = shrink_vec(best.schedule.clone(), &|s: &[u8]| {
-            let mut c = b2.clone();
-            c.schedule = s.to_vec();
-            fails(&c)
-        });
-        best.schedule = sched;
-        let msg2 = match run_single(&best, &kf) {
+        for ph in 0..=best.phases.len() {
+            let b2 = best.clone();
+            let cur = if ph == 0 { best.schedule.clone() } else { best.phases[ph - 1].schedule.clone() };
+            let sched = shrink_vec(cur, &|s: &[u8]| {
+                let mut c = b2.clone();
+                if ph == 0 {
+                    c.schedule = s.to_vec();
+                } else {
+                    c.phases[ph - 1].schedule = s.to_vec();
+                }
+                fails(&c)
+            });
+            if ph == 0 {
+                best.schedule = sched;
+            } else {
+                best.phases[ph - 1].schedule = sched;
+            }
+        }
+        let msg2 = match run_single(&best) {
             C18Verdict::Fail(m) => m,
             _ => msg,
         };
@@ -2368,7 +2847,7 @@ struct ReplicaOut {
 
 fn c32_setup_tenant(pm: &PersistenceManager, case: &C32Case) -> Result<(), String> {
     if let Some((mn, me)) = case.quota {
-        pm.tenants().create_tenant("q".to_string(), "q".to_string(), Some(c18_quotas(mn, me))).map_err(|e| format!("create_tenant refused: {e}"))?;
+        pm.tenants().create_tenant("q".to_string(), "q".to_string(), Some(c18_quotas(Some(mn), Some(me)))).map_err(|e| format!("create_tenant refused: {e}"))?;
     }
     Ok(())
 }
@@ -2524,13 +3003,13 @@ fn c32_check(rt: &tokio::runtime::Runtime, case: &C32Case, kf: &C32Kf) -> C32Ver
     }
 }
 
-/// raw generated request: (kind, selectors, label mask, tenant selector, properties)
-type RawReq = (u8, u16, u16, u16, u8, u8, Vec<(u8, PropertyValue)>);
+/// raw generated request: (kind, selectors, label mask, tenant selector, properties, name selector)
+type RawReq = (u8, u16, u16, u16, u8, u8, Vec<(u8, PropertyValue)>, u16);
 
 fn raw_req_strategy() -> impl Strategy<Value = RawReq> {
     // 0 create_node ×4, 1 create_edge ×3, 2 delete_node ×2, 3 delete_edge, 4 update_node ×3, 5 update_edge ×2, 6 query
     let kind = prop_oneof![4 => Just(0u8), 3 => Just(1u8), 2 => Just(2u8), 1 => Just(3u8), 3 => Just(4u8), 2 => Just(5u8), 1 => Just(6u8)];
-    (kind, any::<u16>(), any::<u16>(), any::<u16>(), 0u8..8, 0u8..8, props_strategy())
+    (kind, any::<u16>(), any::<u16>(), any::<u16>(), 0u8..8, 0u8..8, props_strategy(), any::<u16>())
 }
 
 /// Construct a request sequence (ids 1..=5): creations on free ids, relationships mostly between
@@ -2542,7 +3021,7 @@ fn c32_build(raw: &[RawReq]) -> Vec<Req> {
     let cfg = ModelCfg { upd: UpdMode::Replace, empty_labels_as_empty_string: false };
     let mut gs = [G::default(), G::default()];
     let mut reqs = Vec::new();
-    for (kind, a, b, c, mask, tsel, props) in raw {
+    for (kind, a, b, c, mask, tsel, props, nm) in raw {
         let t: u8 = if *tsel == 7 { 1 } else { 0 };
         let g = &gs[t as usize];
         let live_nodes: Vec<u64> = g.nodes.keys().cloned().collect();
@@ -2556,7 +3035,7 @@ fn c32_build(raw: &[RawReq]) -> Vec<Req> {
             0 if !live_nodes.is_empty() && *b < 13000 => {
                 let id = live_nodes[pick_idx(*a, live_nodes.len())];
                 let props = build_props(props, false);
-                Req::CreateNode { t, id, labels: different_labels(&g.nodes[&id], label_set(*mask), &props), props }
+                Req::CreateNode { t, id, labels: different_labels(&g.nodes[&id], gen_labels(*mask, *nm), &props), props }
             }
             // 25 % (mask 6, 7): CreateEdge over an id that is still stored, new endpoints/type/properties
             1 if !live_edges.is_empty() && *mask >= 6 => {
@@ -2565,16 +3044,19 @@ fn c32_build(raw: &[RawReq]) -> Vec<Req> {
                 let (src, dst) = (pool[pick_idx(*b, pool.len())], pool[pick_idx(*c, pool.len())]);
                 let props = build_props(props, false);
                 let cur = &g.edges[&id];
-                let mut ty = TYPES[*mask as usize % 3].to_string();
+                let mut ty = gen_type(*mask, *nm);
                 if (src, dst, &ty, &jprops_canon(&props)) == (cur.0, cur.1, &cur.2, &cur.3) {
                     ty = TYPES[(*mask as usize + 1) % 3].to_string();
+                    if ty == cur.2 {
+                        ty = TYPES[(*mask as usize + 2) % 3].to_string();
+                    }
                 }
                 Req::CreateEdge { t, id, src, dst, ty, props }
             }
-            0 if !free_nodes.is_empty() => Req::CreateNode { t, id: free_nodes[pick_idx(*a, free_nodes.len())], labels: label_set(*mask), props: build_props(props, false) },
+            0 if !free_nodes.is_empty() => Req::CreateNode { t, id: free_nodes[pick_idx(*a, free_nodes.len())], labels: gen_labels(*mask, *nm), props: build_props(props, false) },
             1 if !free_edges.is_empty() && (!live_nodes.is_empty() || odd) => {
                 let pool: &Vec<u64> = if odd || live_nodes.is_empty() { &all_ids } else { &live_nodes };
-                Req::CreateEdge { t, id: free_edges[pick_idx(*a, free_edges.len())], src: pool[pick_idx(*b, pool.len())], dst: pool[pick_idx(*c, pool.len())], ty: TYPES[*mask as usize % 3].to_string(), props: build_props(props, false) }
+                Req::CreateEdge { t, id: free_edges[pick_idx(*a, free_edges.len())], src: pool[pick_idx(*b, pool.len())], dst: pool[pick_idx(*c, pool.len())], ty: gen_type(*mask, *nm), props: build_props(props, false) }
             }
             2 => {
                 let deletable: Vec<u64> = live_nodes.iter().cloned().filter(|n| !g.incident(*n)).collect();
@@ -2637,7 +3119,7 @@ fn c32(args: &Args) {
     let mut ev = Evidence::new(
         args,
         "exploration",
-        "sequences (<= 20) of replicated Requests (create/delete node and relationship, node/relationship property updates with versions, read-only query; ids 1..=5 with reuse, relationships to missing nodes, deletes and updates of absent ids, requests to a tenant no replica knows, optional small tenant quotas so creations fail; boundary property values; plus a counter-drain class: k creations, at least k deletes of ids that do not exist, then deletes of ids that do, ordered and interleaved) applied to 2-3 GraphStateMachines on fresh directories (even replicas through RaftNode::write, odd ones through GraphStateMachine::apply), each closed, reopened and recovered. Oracle: recovered graphs (ids, labels, endpoints, types, typed properties; timestamps ignored) identical on all replicas — always; and equal to the reference model that applies every request acknowledged with a non-error response, in order — on histories whose meaning is settled (no node deleted while it has relationships). A CreateNode/CreateEdge over an id that is still stored, with different labels/endpoints/type/properties, is generated in about one creation in five and is settled: it is acknowledged and the later creation stands. Non-trivial = the sequence contains a property update or a request answered with an error; distinct = distinct cases.",
+        "sequences (<= 20) of replicated Requests (create/delete node and relationship, node/relationship property updates with versions, read-only query; ids 1..=5 with reuse, relationships to missing nodes, deletes and updates of absent ids, requests to a tenant no replica knows, optional small tenant quotas so creations fail; boundary property values; labels, relationship types and property keys from {A,B,C}/{R,S,T}/{p,q,k} or, in about 40 % / 30 % / 25 % of the creations / relationship creations / property entries, from a boundary pool of names (the empty string alone and among others, white space only, ':' '|' NUL, quotes, backslashes, composed/decomposed/astral non-ASCII, case and padding variants of the plain names, 300-byte and 66 000-byte names, lists that repeat a label); plus a counter-drain class: k creations, at least k deletes of ids that do not exist, then deletes of ids that do, ordered and interleaved) applied to 2-3 GraphStateMachines on fresh directories (even replicas through RaftNode::write, odd ones through GraphStateMachine::apply), each closed, reopened and recovered. Oracle: recovered graphs (ids, labels, endpoints, types, typed properties; timestamps ignored) identical on all replicas — always; and equal to the reference model that applies every request acknowledged with a non-error response, in order — on histories whose meaning is settled (no node deleted while it has relationships). A CreateNode/CreateEdge over an id that is still stored, with different labels/endpoints/type/properties, is generated in about one creation in five and is settled: it is acknowledged and the later creation stands. Non-trivial = the sequence contains a property update or a request answered with an error; distinct = distinct cases.",
     );
     ev.assume("a property update may be read as replacing the property map or as merging into it; either reading, applied consistently, satisfies the oracle; updates carry no top-level null");
     ev.assume("a replica holds data for one tenant only (tenant scans are unbounded above, C17); the unknown tenant never holds data unless a creation for it is wrongly accepted");
@@ -2691,6 +3173,10 @@ fn c32(args: &Args) {
         if case.reqs.iter().any(|r| matches!(r, Req::CreateNode { labels, .. } if labels.is_empty())) {
             ev.class("has_unlabelled_node");
         }
+        let (names, long_name) = name_classes(case.reqs.iter().map(|r| r.as_mut()));
+        for c in &names {
+            ev.class(&format!("request_with_{c}"));
+        }
         let over = count_create_over_existing(case.reqs.iter().filter(|r| r.t() == 0).map(|r| r.as_mut()));
         if over > 0 {
             ev.class("create_over_existing_id");
@@ -2710,7 +3196,7 @@ fn c32(args: &Args) {
                 }
                 if has_update || failing_requests > 0 {
                     ev.nontrivial(&key);
-                    if ev.want_sample() && failing_requests > 0 && case.reqs.len() <= 8 {
+                    if ev.want_sample() && failing_requests > 0 && case.reqs.len() <= 8 && !long_name {
                         ev.sample(json!(case));
                     }
                 }
@@ -2795,6 +3281,30 @@ fn c32(args: &Args) {
             c.reqs = r.to_vec();
             fails(&c)
         });
+        // fewer labels per creation
+        for i in 0..best.reqs.len() {
+            loop {
+                let n = match &best.reqs[i] {
+                    Req::CreateNode { labels, .. } => labels.len(),
+                    _ => 0,
+                };
+                let mut dropped = false;
+                for j in (0..n).rev() {
+                    let mut c = best.clone();
+                    if let Req::CreateNode { labels, .. } = &mut c.reqs[i] {
+                        labels.remove(j);
+                    }
+                    if fails(&c) {
+                        best = c;
+                        dropped = true;
+                        break;
+                    }
+                }
+                if !dropped {
+                    break;
+                }
+            }
+        }
         for i in 0..best.reqs.len() {
             let mut c = best.clone();
             let simpler = match &mut c.reqs[i] {
